@@ -93,7 +93,7 @@ Proof.
   destruct (H k t (or_introl eq_refl)) as [v [E1 [E2 E3]]]. unfold cassign_kw at 1. rewrite E1, E2, HU.
   assert (Hr : verbatim_args (flat_map (cassign_el ct asg F c fs) (map inr r)) = Some ([], r)) by (apply IH; intros k' t' Hin; apply H; right; exact Hin).
   destruct (is_default ct c k v).
-  - destruct (is_unm t); cbn [app verbatim_args verbatim]; rewrite Hr; reflexivity.
+  - destruct (has_unm t); cbn [app verbatim_args verbatim]; rewrite Hr; reflexivity.
   - cbn [app verbatim_args]. rewrite E3, Hr. reflexivity.
 Qed.
 
